@@ -431,7 +431,11 @@ def uprims (sp : Spec) (s : St) : UEv → List Ev
   | .edit v t => [.change v t]
   -- the setter validates the table and calls `classify_nodes`, a `@lock_neuron` function
   | .setNodes v t => [.change v t] ++ lockedCall sp (step sp s (.change v t)) [.classify] false
-  | .arith v t excl => [.change v t, .clear excl]
+  -- in-place arithmetic: validation of the caches (if the source has it), the coordinates change, the trailing
+  -- clear; an operation that excludes the re-classification does not touch `node_id,parent_id`
+  | .arith v t excl =>
+    validatePrims sp s ++
+      [.change v (if excl.contains "classify_nodes" then (run sp s (validatePrims sp s)).tver else t), .clear excl]
   | .isStale => [.isStale]
   | .copy => [.copy]
   | .copyOut => [.copyOut]
@@ -548,8 +552,18 @@ theorem K_ustep {sp : Spec} (hs : SoundFacts sp) {s : St} (h : K sp s) (u : UEv)
     rw [run_append]
     exact K_lockedClassify hs k0
   | arith v t excl =>
-    have k0 : K sp (step sp s (.change v t)) := ⟨h.unlocked, h.attrs, h.tags⟩
-    exact (K_clear hs k0 hu).1
+    have kv : K sp (run sp s (validatePrims sp s)) := by
+      unfold validatePrims
+      split
+      · exact h
+      · split
+        · exact (K_clear hs (K_isStale (sp := sp) h) (knownExcl_nil sp)).1
+        · exact K_isStale h
+    show K sp (run sp s (validatePrims sp s ++ _))
+    rw [run_append]
+    generalize run sp s (validatePrims sp s) = s1 at kv
+    have k0 : ∀ t', K sp (step sp s1 (.change v t')) := fun _ => ⟨kv.unlocked, kv.attrs, kv.tags⟩
+    exact (K_clear hs (k0 _) hu).1
   | isStale => exact K_isStale h
   | copyOut => exact K_isStale h
   | copy =>
@@ -769,26 +783,37 @@ def roundBits (p : Nat) (n : Int) : Int :=
     let q' := if r > half || (r == half && q % 2 == 1) then q + 1 else q
     (if n < 0 then -1 else 1) * ((q' * 2 ^ e : Nat) : Int)
 
-def hashInput (sp : Spec) (row : List Int) : List Int := row.map (roundBits sp.hashBits)
+/-- what reaches the hash function for a row of cells: the cells themselves when every column is hashed in its
+own dtype, otherwise their images in the common floating type of the table -/
+def hashInput (sp : Spec) (row : List Int) : List Int :=
+  if sp.hashNative then row else row.map (roundBits sp.hashBits)
+
+/-- per-column hashing in the columns' own dtypes: what reaches the hash function determines the row, whatever
+the size of the ids -/
+theorem hashInput_injective_native {sp : Spec} (h : sp.hashNative = true) (a b : List Int)
+    (he : hashInput sp a = hashInput sp b) : a = b := by
+  simpa [hashInput, h] using he
 
 theorem roundBits_exact {p : Nat} {n : Int} (h : n.natAbs ≤ 2 ^ p) : roundBits p n = n := by
   unfold roundBits; simp [h]
 
 /-- rows whose cells are exactly representable are determined by what reaches the hash function -/
-theorem hashInput_injective {sp : Spec} : ∀ (a b : List Int), (∀ n ∈ a, n.natAbs ≤ 2 ^ sp.hashBits) →
+theorem hashInput_injective {sp : Spec} (hn : sp.hashNative = false) : ∀ (a b : List Int), (∀ n ∈ a, n.natAbs ≤ 2 ^ sp.hashBits) →
     (∀ n ∈ b, n.natAbs ≤ 2 ^ sp.hashBits) → hashInput sp a = hashInput sp b → a = b := by
   intro a
   induction a with
   | nil => intro b _ _ h; cases b with
     | nil => rfl
-    | cons y ys => simp [hashInput] at h
+    | cons y ys => simp [hashInput, hn] at h
   | cons x xs ih =>
     intro b ha hb h
     cases b with
-    | nil => simp [hashInput] at h
+    | nil => simp [hashInput, hn] at h
     | cons y ys =>
-      simp only [hashInput, List.map_cons, List.cons.injEq] at h
+      simp only [hashInput, hn, Bool.false_eq_true, if_false, List.map_cons, List.cons.injEq] at h
       rw [roundBits_exact (ha x (by simp)), roundBits_exact (hb y (by simp))] at h
-      rw [h.1, ih ys (fun n hn => ha n (by simp [hn])) (fun n hn => hb n (by simp [hn])) h.2]
+      have ih' := ih ys (fun n hn' => ha n (by simp [hn'])) (fun n hn' => hb n (by simp [hn']))
+        (by simp only [hashInput, hn, Bool.false_eq_true, if_false]; exact h.2)
+      rw [h.1, ih']
 
 end Navis.Cache
